@@ -111,7 +111,7 @@ def cases(tier, seed):
   out = []
 
   # accumulators: every kind pair, the tiny grid in full plus seeded draws from the wider grid
-  per_kind_pair = 36 if quick else 300
+  per_kind_pair = 16 if quick else 150
   acc_pairs = []
   for a in small:
     for b in small:
@@ -124,7 +124,7 @@ def cases(tier, seed):
   for _ in range(300 if quick else 4000):
     acc_pairs.append((qt.random_spec(rnd, 9, 16), qt.random_spec(rnd, 1, 16)))
   for (w, x) in acc_pairs:
-    ns = pick_ns(rnd, 10 if quick else 16)
+    ns = pick_ns(rnd, 6 if quick else 12)
     c = {"t": "acc", "w": w, "x": x, "shapes": [shape_for(n, rnd) for n in ns]}
     which = rnd.choice(["w", "x"])
     wide = qt.widen(c[which], rnd)
@@ -133,9 +133,9 @@ def cases(tier, seed):
     out.append(c)
 
   # adders
-  ga = qt.grid(6 if quick else 8, with_tanh=False)
+  ga = qt.grid(5 if quick else 8, with_tanh=False)
   pairs = [(a, b) for a in ga for b in ga]
-  for _ in range(9000 if quick else 60000):
+  for _ in range(6000 if quick else 60000):
     hi = 16 if quick else 24
     pairs.append((qt.random_spec(rnd, 1, hi), qt.random_spec(rnd, 1, hi)))
   rnd.shuffle(pairs)
@@ -148,7 +148,7 @@ def cases(tier, seed):
       if wide is not None:
         item["wide"] = [which, wide]
     chunk.append(item)
-    if len(chunk) == 40:
+    if len(chunk) == 8:
       out.append({"t": "add", "items": chunk})
       chunk = []
   if chunk:
@@ -180,7 +180,7 @@ def cases(tier, seed):
         if wide is not None:
           item["wide"] = [0, wide]
       chunk.append(item)
-      if len(chunk) == 40:
+      if len(chunk) == 8:
         out.append({"t": "merge", "items": chunk})
         chunk = []
   if chunk:
@@ -192,12 +192,48 @@ def cases(tier, seed):
 
 
 # ------------------------------------------------------------ oracle helpers
+def _kind(t):
+  """fs/fu/ps/pu/t/bpm/b01/float; a ternary type that reports fewer than 2 bits
+  (the Mux(ternary, binary+-1) output, see C16) is kept apart as 't(1bit)'."""
+  k = ty.short_kind(t)
+  if t.kind == "ternary" and t.bits < 2:
+    return "t(1bit)"
+  return k
+
+
+def _merge_classes(ts):
+  """Mechanism-level summary of a merge's operand types: the feature that
+  decides which sizing rule applies (a po2 operand is converted to fixed point
+  first; binary +-1 is the 1-bit signed type; otherwise plain), and how the
+  operand types relate (identical / signed+unsigned mix / mismatched)."""
+  ks = {_kind(t) for t in ts}
+  if ks & {"ps", "pu"}:
+    a = "po2"
+  elif "bpm" in ks:
+    a = "bpm"
+  elif "t(1bit)" in ks:
+    a = "t(1bit)"
+  else:
+    a = "plain"
+  if all(t == ts[0] for t in ts[1:]):
+    rel = "identical"
+  elif len({t.signed for t in ts}) > 1:
+    rel = "signed+unsigned"
+  else:
+    rel = "mismatched"
+  return a, rel
+
+
 def _sig(base, kind, fail=None, short=None):
   s = dict(base)
   s["kind"] = kind
   s["fail"] = fail
   s["short_bits"] = None if short is None else (short if short <= 2 else "3+")
   return s
+
+
+def _lit(lit):
+  return lit() if callable(lit) else lit
 
 
 def _lab(what):
@@ -230,7 +266,7 @@ def _member(ctx, base, kind, O, values, lit, failed, label):
     ctx.violation(_sig(base, kind, why, short),
                   "%s: %s = %s is not a value of the reported %s type %s (%s)" % (
                       label, what, ty.fmt(v), base["op"], ty.describe(O), why),
-                  dict(lit, what=what, value=ty.fmt(v)))
+                  dict(_lit(lit), what=what, value=ty.fmt(v)))
   return good, n, tight
 
 
@@ -246,7 +282,7 @@ def _resolution_range(ctx, base, O, lsbs, lo_need, hi_need, lit, label):
     good = False
     ctx.violation(_sig(base, "resolution_coarser_than_finest_operand"),
                   "%s: LSB of the result %s is %s, the finest operand LSB is %s" % (
-                      label, ty.describe(O), ty.fmt(ty.lsb(O)), ty.fmt(fin)), lit)
+                      label, ty.describe(O), ty.fmt(ty.lsb(O)), ty.fmt(fin)), _lit(lit))
   if ty.vmax(O) < hi_need or ty.vmin(O) > lo_need:
     good = False
     top = ty.vmax(O) < hi_need
@@ -254,7 +290,7 @@ def _resolution_range(ctx, base, O, lsbs, lo_need, hi_need, lit, label):
     ctx.violation(_sig(base, "range_smaller_than_sum_of_magnitudes", "above_max" if top else "below_min",
                        ty.shortfall_bits(O, v)),
                   "%s: result %s covers [%s, %s], the sums span [%s, %s]" % (
-                      label, ty.describe(O), ty.fmt(ty.vmin(O)), ty.fmt(ty.vmax(O)), ty.fmt(lo_need), ty.fmt(hi_need)), lit)
+                      label, ty.describe(O), ty.fmt(ty.vmin(O)), ty.fmt(ty.vmax(O)), ty.fmt(lo_need), ty.fmt(hi_need)), _lit(lit))
   return good
 
 
@@ -263,18 +299,18 @@ def _float_rule(ctx, base, operands, O, lit):
   fl = [t for t in operands if t.kind == "float"]
   if not fl:
     if O.kind == "float":
-      ctx.observe("non_float_operands_float_result/%s" % base["op"], lit)
+      ctx.observe("non_float_operands_float_result/%s" % base["op"], _lit(lit))
       return True
     return None
   ctx.count("%s.float" % base["op"])
   ctx.evals(1)
   if O.kind != "float":
     ctx.violation(_sig(base, "float_operand_non_float_result"),
-                  "a floating-point operand but the result type is %s" % ty.describe(O), lit)
+                  "a floating-point operand but the result type is %s" % ty.describe(O), _lit(lit))
     return False
   if O.bits < max(t.bits for t in fl):
     ctx.violation(_sig(base, "float_result_narrower_than_operand"),
-                  "float%d operand, float%d result" % (max(t.bits for t in fl), O.bits), lit)
+                  "float%d operand, float%d result" % (max(t.bits for t in fl), O.bits), _lit(lit))
     return False
   return True
 
@@ -286,12 +322,18 @@ def check_accumulator(kernel_shape, multiplier, use_bias, result):
   M, A = ty.from_reported(multiplier.output), ty.from_reported(result.output)
   n_kernel = math.prod(int(d) for d in tuple(kernel_shape)[:-1])
   N = n_kernel + (1 if use_bias else 0)
-  base = {"op": "accumulator", "impl": type(result).__name__, "a": ty.short_kind(M),
+  base = {"op": "accumulator", "impl": type(result).__name__, "a": _kind(M),
           "b": "bias" if use_bias else "nobias"}
-  lit = {"kernel_shape": [int(d) for d in kernel_shape], "use_bias": bool(use_bias), "terms": N,
-         "multiplier_output": ty.fields(multiplier.output), "accumulator": ty.fields(result.output)}
+  lit = lambda: {"kernel_shape": [int(d) for d in kernel_shape], "use_bias": bool(use_bias), "terms": N,  # noqa: E731
+                 "multiplier_output": ty.fields(multiplier.output), "accumulator": ty.fields(result.output)}
   ctx.seen("n_values", N)
-  ctx.seen("accumulator_impl_by_kind", "%s -> %s" % (ty.short_kind(M), type(result).__name__))
+  if N & (N - 1) == 0:
+    ctx.count("accumulator.terms_power_of_two")
+  elif (N - 1) & (N - 2) == 0:
+    ctx.count("accumulator.terms_power_of_two_plus_1")
+  if N >= 2 ** 16:
+    ctx.count("accumulator.terms_at_least_2^16")
+  ctx.seen("accumulator_impl_by_kind", "%s -> %s" % (_kind(M), type(result).__name__))
   fr = _float_rule(ctx, base, [M], A, lit)
   if fr is not None:
     return fr
@@ -299,7 +341,7 @@ def check_accumulator(kernel_shape, multiplier, use_bias, result):
     ctx.skip("empty_multiplier_lattice")
     return True
   if A.kind != "fixed" or A.bits < 1:
-    ctx.violation(_sig(base, "degenerate_result_type"), "accumulator type %s" % ty.describe(A), lit)
+    ctx.violation(_sig(base, "degenerate_result_type"), "accumulator type %s" % ty.describe(A), _lit(lit))
     return False
   label = "N=%d terms of %s" % (N, ty.describe(M))
   mx, mn = ty.vmax(M), ty.vmin(M)
@@ -319,7 +361,7 @@ def check_accumulator(kernel_shape, multiplier, use_bias, result):
   good, n, tight = _member(ctx, base, "sum_not_representable", A, vals, lit, failed, label)
   # tiny cases: every multiset of N values
   sz = ty.size(M)
-  if N <= 8 and math.comb(sz + N - 1, N) <= 3000:
+  if N <= 6 and math.comb(sz + N - 1, N) <= 500:
     allv = ty.enumerate_values(M)
     sums = sorted({sum(c) for c in itertools.combinations_with_replacement(allv, N)})
     ctx.count("accumulator.brute_force_multisets", math.comb(sz + N - 1, N))
@@ -331,8 +373,8 @@ def check_accumulator(kernel_shape, multiplier, use_bias, result):
   good = _resolution_range(ctx, base, A, [ty.lsb(M)], N * mn, N * mx, lit, label) and good
   if tight:
     ctx.nontrivial("acc", ty.describe(M), N)
-  if good:
-    ctx.sample(dict(lit, sums_checked=n))
+  if good and len(ctx.samples) < 3:
+    ctx.sample(dict(_lit(lit), sums_checked=n))
   return good
 
 
@@ -362,8 +404,8 @@ def check_adder(q1, q2, result):
   ctx = _S["ctx"]
   ctx.count("adder.contract_evals")
   A, B, O = ty.from_reported(q1), ty.from_reported(q2), ty.from_reported(result.output)
-  base = {"op": "adder", "impl": type(result).__name__, "a": ty.short_kind(A), "b": ty.short_kind(B)}
-  lit = {"a": ty.fields(q1), "b": ty.fields(q2), "result": ty.fields(result.output)}
+  base = {"op": "adder", "impl": type(result).__name__, "a": _kind(A), "b": _kind(B)}
+  lit = lambda: {"a": ty.fields(q1), "b": ty.fields(q2), "result": ty.fields(result.output)}  # noqa: E731
   ctx.seen("adder_impl_by_kind_pair", "%s + %s -> %s" % (base["a"], base["b"], base["impl"]))
   fr = _float_rule(ctx, base, [A, B], O, lit)
   if fr is not None:
@@ -372,12 +414,12 @@ def check_adder(q1, q2, result):
     ctx.skip("empty_operand_lattice")
     return True
   if O.kind != "fixed" or O.bits < 1:
-    ctx.violation(_sig(base, "degenerate_result_type"), "adder type %s" % ty.describe(O), lit)
+    ctx.violation(_sig(base, "degenerate_result_type"), "adder type %s" % ty.describe(O), _lit(lit))
     return False
   ctx.count("adder.type_pairs")
   good, n = _check_sum2(ctx, base, A, B, O, lit, "adder")
-  if good:
-    ctx.sample(dict(lit, sums_checked=n))
+  if good and len(ctx.samples) < 3:
+    ctx.sample(dict(_lit(lit), sums_checked=n))
   return good
 
 
@@ -390,9 +432,11 @@ def check_merge(input_qe_list, layer_type, result):
   qs = [node[0] for node in input_qe_list]
   ts = [ty.from_reported(q) for q in qs]
   O = ty.from_reported(result.output)
-  kinds = [ty.short_kind(t) for t in ts]
-  base = {"op": "merge", "impl": layer_type, "a": kinds[0], "b": "|".join(sorted(set(kinds[1:])))}
-  lit = {"layer": layer_type, "operands": [ty.fields(q) for q in qs], "result": ty.fields(result.output)}
+  ma, mb = _merge_classes(ts)
+  base = {"op": "merge", "impl": layer_type, "a": ma, "b": mb}
+  ctx.seen("merge_operand_classes", "%s(%s; %s)" % (layer_type, ma, mb))
+  lit = lambda: {"layer": layer_type, "operands": [ty.fields(q) for q in qs],  # noqa: E731
+                 "result": ty.fields(result.output)}
   fr = _float_rule(ctx, base, ts, O, lit)
   if fr is not None:
     return fr
@@ -400,7 +444,7 @@ def check_merge(input_qe_list, layer_type, result):
     ctx.skip("empty_operand_lattice")
     return True
   if O.kind == "fixed" and O.bits < 1:
-    ctx.violation(_sig(base, "degenerate_result_type"), "merge type %s" % ty.describe(O), lit)
+    ctx.violation(_sig(base, "degenerate_result_type"), "merge type %s" % ty.describe(O), _lit(lit))
     return False
   if layer_type == "Add":
     if len(ts) == 2:
@@ -412,7 +456,7 @@ def check_merge(input_qe_list, layer_type, result):
     lo = sum(ty.vmin(t) for t in ts)
     ctx.count("merge.add_of_more_than_two")
     if ty.why_not(O, hi) is not None or ty.why_not(O, lo) is not None:
-      ctx.observe("add_of_%d_operands_extreme_sum_not_representable" % len(ts), lit)
+      ctx.observe("add_of_%d_operands_extreme_sum_not_representable" % len(ts), _lit(lit))
     return True
   # Maximum family: the result holds every value of every operand
   label = "%s(%s)" % (layer_type, ", ".join(ty.describe(t) for t in ts))
@@ -435,7 +479,7 @@ def check_merge(input_qe_list, layer_type, result):
   if layer_type == "Average" and len(ts) == 2:
     v = (ty.vmax(ts[0]) + ty.vmin(ts[1])) / 2
     if ty.why_not(O, v) is not None:
-      ctx.observe("average_of_two_operand_values_not_representable", lit)
+      ctx.observe("average_of_two_operand_values_not_representable", _lit(lit))
   if tight:
     ctx.nontrivial("merge", layer_type, tuple(ty.describe(t) for t in ts))
   return good
@@ -495,14 +539,15 @@ def monotone(ctx, base, O1, O2, lit):
   ctx.evals(1)
   if O1.kind == "float" or O2.kind == "float":
     if O1.kind == "float" and O2.kind != "float":
-      ctx.violation(_sig(base, "widening_narrows_result", "float_to_fixed"), "float result became %s" % ty.describe(O2), lit)
+      ctx.violation(_sig(base, "widening_narrows_result", "float_to_fixed"), "float result became %s" % ty.describe(O2), _lit(lit))
     return
   if ty.is_empty(O1) or ty.is_empty(O2):
     return
   bad = None
-  if O2.bits < O1.bits:
+  same_kind = O1.kind == O2.kind       # bit counts of different kinds of type are not comparable
+  if same_kind and O2.bits < O1.bits:
     bad = "bits"
-  elif O2.kind == "fixed" and O1.kind == "fixed" and O2.int_bits < O1.int_bits:
+  elif same_kind and O1.kind == "fixed" and O2.int_bits < O1.int_bits:
     bad = "int_bits"
   elif ty.vmax(O2) < ty.vmax(O1) or ty.vmin(O2) > ty.vmin(O1):
     bad = "interval"
@@ -510,7 +555,7 @@ def monotone(ctx, base, O1, O2, lit):
     bad = "lsb"
   if bad:
     ctx.violation(_sig(base, "widening_narrows_result", bad),
-                  "result %s became %s after widening an operand (%s)" % (ty.describe(O1), ty.describe(O2), bad), lit)
+                  "result %s became %s after widening an operand (%s)" % (ty.describe(O1), ty.describe(O2), bad), _lit(lit))
 
 
 def _out(r):
@@ -537,7 +582,7 @@ def run_acc(case, ctx):
   if "wide" in case:
     which, wide = case["wide"]
     m2 = mult(wide if which == "w" else case["w"], wide if which == "x" else case["x"])
-  kind = ty.short_kind(ty.from_reported(m.output))
+  kind = _kind(ty.from_reported(m.output))
   prev = {}
   for shape in case["shapes"]:
     for bias in (False, True):
@@ -547,11 +592,13 @@ def run_acc(case, ctx):
         continue
       O = ty.from_reported(r.output)
       mbase = dict(base, impl=type(r).__name__)
-      lit = {"kernel_shape": shape, "use_bias": bias, "multiplier_output": ty.fields(m.output)}
+      def lit(shape=shape, bias=bias, **more):
+        return dict({"kernel_shape": shape, "use_bias": bias, "multiplier_output": ty.fields(m.output)}, **more)
       n = math.prod(shape[:-1])
       # more terms never narrow the accumulator (shapes are in ascending N)
       if bias in prev and prev[bias][0] <= n:
-        monotone(ctx, dict(mbase, b="more_terms"), prev[bias][1], O, dict(lit, fewer_terms=prev[bias][0]))
+        monotone(ctx, dict(mbase, b="more_terms"), prev[bias][1], O,
+                 lambda lit=lit, k=prev[bias][0]: lit(fewer_terms=k))
       prev[bias] = (n, O)
       if bias and prev.get(False) and prev[False][0] == n:
         monotone(ctx, dict(mbase, b="bias_added"), prev[False][1], O, lit)
@@ -559,7 +606,7 @@ def run_acc(case, ctx):
         r2 = _call(ctx, base, AF, "make_accumulator", af, tuple(shape), m2, bias)
         if r2 is not None:
           monotone(ctx, dict(mbase, b="operand_widened"), O, ty.from_reported(r2.output),
-                   dict(lit, widened_multiplier_output=ty.fields(m2.output)))
+                   lambda lit=lit: lit(widened_multiplier_output=ty.fields(m2.output)))
 
 
 def run_add(case, ctx):
@@ -581,7 +628,8 @@ def run_add(case, ctx):
       r2 = _call(ctx, base, AD, "make_quantizer", adder, a2[1], b2[1])
       if r2 is not None:
         monotone(ctx, dict(base, impl=type(r1).__name__), _out(r1), _out(r2),
-                 {"a": ty.fields(a[1]), "b": ty.fields(b[1]), "widened": which, "as": ty.fields(w[1])})
+                 lambda a=a, b=b, w=w, which=which: {"a": ty.fields(a[1]), "b": ty.fields(b[1]),
+                                                      "widened": which, "as": ty.fields(w[1])})
 
 
 def run_bias(case, ctx):
@@ -619,9 +667,10 @@ def run_merge(case, ctx):
       lst2 = [(w[1], None)] + lst[1:]
       r2 = _call(ctx, base, MG, "make_quantizer", mg, lst2, it["layer"])
       if r2 is not None:
-        kinds = [s["k"] for s in it["ops"]]
-        monotone(ctx, dict(base, b="|".join(sorted(set(kinds[1:])))), _out(r1), _out(r2),
-                 {"operands": [ty.fields(g[1]) for g in got], "widened_first_operand_as": ty.fields(w[1])})
+        ma, mb = _merge_classes([ty.from_reported(g[1]) for g in got])
+        monotone(ctx, dict(base, a=ma, b=mb), _out(r1), _out(r2),
+                 lambda got=got, w=w: {"operands": [ty.fields(g[1]) for g in got],
+                                       "widened_first_operand_as": ty.fields(w[1])})
 
 
 def run_case(case, ctx):
